@@ -44,6 +44,7 @@
 -/
 import DDProofs.DynExample
 import DDProofs.DynSift
+import DDProofs.DynCube
 import DDProps.Tables
 namespace DD
 
@@ -285,22 +286,74 @@ theorem C09_retry_example :
       (ite 4 3 (-1) exDyn).2.ctx = false :=
   ⟨exDyn_first_attempt_aborts, exDyn_ite_ok⟩
 
-/-! ## what is open -/
+/-! ## the contract of sifting, and the remaining entry points -/
 
 /-- C09: the contract of sifting holds for every ledger (C07's totality of sifting). -/
 theorem C09_siftContract (ext : Nat → Nat) : SiftContract ext := siftContract ext
 
-/-- C09, FULL STATEMENT for the record.  Proved above: `ite`,
-`apply` (binary propositional aliases, `ite`), `var`, `quantify`/`exist`/`forall`, `let` in its
-three forms (`cofactor`, `compose`, `rename`).  Open: `cube` and `add_expr` (bodies that call
-other decorated entry points in a loop), `copy_bdd` into a reordering-enabled target (F4: the
-code is wrong there), the quantifier aliases of `apply`; decided for those by correspondence at
-every trigger position only. -/
-def C09_all_operations_statement : Prop :=
-  ∀ (ext : Nat → Nat) (m : Mgr), DynInv ext m →
-    ∀ (dvars : List (String × Bool)), (∀ p ∈ dvars, m.tbl.vars.contains p.1 = true) →
-      ∃ r m', cube dvars m = (.ok r, m') ∧
-        DynPostG ext (fun _ r t' => t'.Mem r ∧
-          ∀ σ, denN t' r σ = true ↔ ∀ p ∈ dvars, σ p.1 = p.2) m r m'
+/-- C09 `cube(dvars)` over declared names (a loop of the decorated `var` and `apply('and')`,
+nested in the context of `cube`, where they re-raise the signal): the conjunction of the
+literals, by name. -/
+theorem C09_cube_transparent (ext : Nat → Nat) (m : Mgr) (hD : DynInv ext m)
+    (dvars : List (String × Bool)) (hdecl : ∀ p ∈ dvars, m.tbl.vars.contains p.1 = true) :
+    ∃ r m', cube dvars m = (.ok r, m') ∧ DynPostG ext (CubeDoc dvars) m r m' :=
+  cube_transparent ext (siftContract ext) m hD dvars hdecl
+
+example : ∀ p ∈ [("a", true), ("b", false)], exDyn.tbl.vars.contains p.1 = true := by decide
+
+/-- C09 `copy_bdd(u, from_bdd, to_bdd)` into a target with dynamic reordering enabled (the body
+runs inside the target's decorator, fix F4b): the copy denotes the same function of the variable
+names as `u` in the source `s`, whatever the target does to its order meanwhile. -/
+theorem C09_copy_bdd_transparent (ext : Nat → Nat) (s : Tbl) (hS : WF s) (hOs : OrderOK s)
+    (m : Mgr) (hD : DynInv ext m) (u : Int) (hu : s.Mem u) (hsup : CopyPre s u m.tbl) :
+    ∃ r m', copyBdd s u m = (.ok r, m') ∧ DynPostG ext (CopyDoc s u) m r m' :=
+  copyBdd_transparent ext (siftContract ext) s hS hOs m hD u hu hsup
+
+example : WF exM.tbl ∧ OrderOK exM.tbl ∧ exM.tbl.Mem 4 ∧ CopyPre exM.tbl 4 exDyn.tbl := by
+  refine ⟨exM_inv.wf.toWF, exM_orderOK, Or.inr (by decide), ?_⟩
+  intro i v hi hv
+  have hlt := hi.lt_nvars exM_inv.wf.toWF
+  have hn : exM.tbl.nvars = 2 := by decide
+  rw [hn] at hlt
+  have h0 : exM.tbl.l2v[0]? = some "a" := by decide
+  have h1 : exM.tbl.l2v[1]? = some "b" := by decide
+  match i, hlt with
+  | 0, _ => rw [h0] at hv; cases hv; decide
+  | 1, _ => rw [h1] at hv; cases hv; decide
+
+/-- C09 `apply` with a quantifier alias (`\A`, `\E`, `forall`, `exists`): the variables are the
+support of the first operand (`names`, all declared), the second operand is quantified. -/
+theorem C09_apply_quant_transparent (ext : Nat → Nat) (m : Mgr) (hD : DynInv ext m) (op : String)
+    (c : Conn) (hc : docConn op = some c) (hq : c = .forall_ ∨ c = .exists_)
+    (hall : Gen.allOps.contains op = true) (u v : Int) (hu : m.tbl.Mem u) (hv : HeldX ext v)
+    (names : List String) (hsupp : support m.tbl u = .ok names)
+    (hdecl : ∀ s ∈ names, m.tbl.vars.contains s = true) :
+    ∃ r m', apply op u (some v) none m = (.ok r, m') ∧
+      DynPostG ext (QuantDoc (decide (c = .forall_)) names v) m r m' :=
+  apply_quant_transparent ext (siftContract ext) m hD op c hc hq hall u v hu hv names hsupp hdecl
+
+/-- C09, chaining: two decorated calls in a row (the expression `ite(g, u, v) /\ w`), the first
+result `incref`ed in between as the autoref wrapper does; a reordering request may fire in either
+call, the ledger of user-held references grows along the way. -/
+theorem C09_chained_calls_transparent (ext : Nat → Nat) (m : Mgr) (hD : DynInv ext m)
+    (g u v w : Int) (hg : HeldX ext g) (hu : HeldX ext u) (hv : HeldX ext v) (hw : HeldX ext w) :
+    ∃ r1 m1, ite g u v m = (.ok r1, m1) ∧ ∃ m1', incref r1 m1 = (.ok (), m1') ∧
+      ∃ r2 m2, apply "and" r1 (some w) none m1' = (.ok r2, m2) ∧
+        DynInv (extInc ext r1.natAbs) m2 ∧ m2.tbl.Mem r2 ∧
+        ∀ σ, denN m2.tbl r2 σ =
+          ((if denN m.tbl g σ then denN m.tbl u σ else denN m.tbl v σ) && denN m.tbl w σ) :=
+  ite_then_and_transparent ext m hD siftContract g u v w hg hu hv hw
+
+/-! ## what is not covered
+
+Proved above for the decorated entry points of the model: `ite`, `apply` (binary propositional
+aliases, `ite`, quantifier aliases), `var`, `quantify`/`exist`/`forall`, `let` in its three forms
+(`cofactor`, `compose`, `rename`), `cube`, `copy_bdd` into the manager, and the chaining of calls
+with `incref` in between.  NOT covered by a theorem: `add_expr` as a whole (the parser's tree walk
+of C05 is a chain of the calls above with the intermediate results held by the autoref wrapper —
+`C09_chained_calls_transparent` is the two-call instance; the general statement is C08's history
+theorem composed with the theorems above), `load` (C12/C16), and the undecorated `image`,
+`preimage`, `autoref.BDD.find_or_add`, for which the property is FALSE of the code (known findings
+F4a/F4c).  Those are decided by correspondence at every trigger position. -/
 
 end DD
